@@ -1,0 +1,76 @@
+//go:build verif
+
+// Verification hooks (build tag verif) for property C07: lets an external harness encode one record through the real
+// chunk builder (segment splitting, column headers, one-row mode, block coders, chunk meta) and decode single segments
+// with the functions the readers use. No behaviour of its own.
+package immutable
+
+import (
+	"github.com/openGemini/openGemini/lib/record"
+)
+
+// VerifChunk is the result of the real TsChunkDataImp.EncodeChunk: the chunk bytes and, per column (time last) and
+// segment, the slice of the chunk holding that segment, plus the per-segment time ranges and the marshalled chunk meta
+// re-read by ChunkMeta.unmarshal.
+type VerifChunk struct {
+	Chunk     []byte
+	Segments  [][][]byte // [column][segment]
+	TimeRange [][2]int64 // [segment] as read back from the marshalled chunk meta
+	MetaOK    bool       // chunk meta marshal -> unmarshal gave the same segments (offset, size) and ranges
+}
+
+func VerifEncodeChunk(rec *record.Record, maxRowsPerSegment, maxSegments int) (*VerifChunk, error) {
+	b := NewChunkDataBuilder(maxRowsPerSegment, maxSegments)
+	b.chunkMeta = &ChunkMeta{}
+	imp := &TsChunkDataImp{}
+	chunk, err := imp.EncodeChunk(b, 1, 0, rec, nil, true)
+	if err != nil {
+		return nil, err
+	}
+	cm := b.chunkMeta
+	res := &VerifChunk{Chunk: chunk, MetaOK: true}
+	// chunk meta round trip
+	buf := cm.marshal(nil)
+	got := &ChunkMeta{}
+	if _, err := got.unmarshal(buf); err != nil {
+		res.MetaOK = false
+		got = cm
+	}
+	if len(got.colMeta) != len(cm.colMeta) || len(got.timeRange) != len(cm.timeRange) {
+		res.MetaOK = false
+		got = cm
+	}
+	for i := range cm.colMeta {
+		var segs [][]byte
+		if len(got.colMeta[i].entries) != len(cm.colMeta[i].entries) || got.colMeta[i].name != cm.colMeta[i].name || got.colMeta[i].ty != cm.colMeta[i].ty {
+			res.MetaOK = false
+			got = cm
+		}
+		for j := range cm.colMeta[i].entries {
+			off, size := got.colMeta[i].entries[j].OffsetSize()
+			o2, s2 := cm.colMeta[i].entries[j].OffsetSize()
+			if off != o2 || size != s2 {
+				res.MetaOK = false
+			}
+			segs = append(segs, chunk[o2:o2+int64(s2)])
+		}
+		res.Segments = append(res.Segments, segs)
+	}
+	for j := range cm.timeRange {
+		if got.timeRange[j] != cm.timeRange[j] {
+			res.MetaOK = false
+		}
+		res.TimeRange = append(res.TimeRange, [2]int64{got.timeRange[j].minTime(), got.timeRange[j].maxTime()})
+	}
+	return res, nil
+}
+
+// VerifDecodeSegment decodes one data-column segment the way readers do (decodeColumnData).
+func VerifDecodeSegment(ref record.Field, data []byte, col *record.ColVal, ascending bool) error {
+	return decodeColumnData(&ref, data, col, NewReadContext(ascending), true)
+}
+
+// VerifDecodeTimeSegment decodes one time-column segment the way readers do (appendTimeColumnData).
+func VerifDecodeTimeSegment(data []byte, col *record.ColVal, ascending bool) error {
+	return appendTimeColumnData(data, col, NewReadContext(ascending), true)
+}
